@@ -13,6 +13,14 @@ PINS = {
     "C01_too_deep_de": "forall e v, wf true v = true -> (32 < depth v)%nat -> de_as_value true (ser_raw e v) = Err TooDeep",
     "C01_varint_roundtrip": "get_varint W (put_varint W n ++ r) = Ok (n, r)",
     "C01_zigzag_roundtrip": "forall z, zigzag_dec (zigzag_enc z) = z",
+    "C01_roundtrip_general": "forall e v, wfd true v = true -> (depth v <= 32)%nat -> exists bs, serialize e v = Ok bs /\\ de_as_value true bs = Ok (norm v)",
+    "C01_norm_wf_id": "forall v, wf true v = true -> wfd true v = true /\\ norm v = v",
+    "C01_norm_wf": "forall v, wfd true v = true -> wf true (norm v) = true",
+    "C01_map_last_wins": "de_as_value true bs = Ok (VMap k (dedup_map (map (fun p => (fst p, norm (snd p))) l)))",
+    "C01_dedup_map_spec": "(forall k, map_lookup_last k (dedup_map l) = map_lookup_last k l)",
+    "C01_dedup_struct_spec": "(forall k, struct_lookup_last k (dedup_struct l) = struct_lookup_last k l)",
+    "C01_dedup_set_spec": "(forall k, existsb (key_eqb k) (dedup_set l) = existsb (key_eqb k) l)",
+    "C01_decoded_no_duplicates": "forall utf8 b v r, de_value utf8 b = Ok (v, r) -> nodups v = true",
 }
 SIZES = {"quick": (6000, 8), "thorough": (400000, 16)}
 
